@@ -2,8 +2,8 @@
    Only statements, `exact`, Print Assumptions.  Values: any commutative ring with decidable zero unless said otherwise. *)
 From Coq Require Import List Arith Bool ZArith Permutation Ring QArith Qcanon.
 From PV Require Import Base.Index Base.Perm Base.Sum Np.Array Model.Sparse Model.Repr Model.Harness Model.C03Ops Model.C06Ops
-                       Model.C02Spec Model.C02Sparse Model.C06Cont Model.C01Unique Model.C06W4 Model.C06W5
-                       Proofs.C03Lemmas Proofs.C03Proofs Proofs.C03More Proofs.C06Proofs Proofs.C06Other Proofs.C01Unique Proofs.C06Kernels Proofs.C06Cont Proofs.C06W4 Proofs.C06W5 Proofs.C06KInner2.
+                       Model.C02Spec Model.C02Sparse Model.C06Cont Model.C06Stm Model.C01Conv Model.C01Unique Model.C01Coo Model.C06W4 Model.C06W5 Model.C06SetSubs
+                       Proofs.C03Lemmas Proofs.C03Proofs Proofs.C03More Proofs.C06Proofs Proofs.C06Other Proofs.C01Unique Proofs.C06Kernels Proofs.C06Cont Proofs.C06W4 Proofs.C01Converse Proofs.C01Coo Proofs.C06W5 Proofs.C06KInner2 Proofs.C06Diag Proofs.C06SetSubs.
 Import ListNotations.
 
 (* ---- sptensor.from_aggregator with ANY reducer that does not look at the order of the group it is handed (function_handle = np.max,
@@ -38,6 +38,53 @@ Theorem C06_cont_collapse_reducer_wf : forall (V : Type) (v0 : V) (isz : V -> bo
   wf_sp isz R /\ sshape R = ttv_shape (sshape S) dims.
 Proof. exact cont_collapse_f_wf. Qed.
 
+(* ---- the generator sptendiag(elements, shape) (Model/C06W5.v impl_sptendiag: constructed shape, N rows [k; ...; k], from_aggregator):
+        whenever pyttb accepts the request (the constructed shape has a mode, or there is no element) the result is well-formed — no
+        explicit zero for a zero element —, has the constructed shape and denotes the super-diagonal of the elements ---- *)
+Theorem C06_sptendiag : forall (V : Type) (v0 : V) (vadd : V -> V -> V), (forall x, vadd x v0 = x) ->
+  forall isz : V -> bool, (forall v, isz v = true <-> v = v0) ->
+  forall (els : list V) (req : option shape), diag_cshape (length els) req <> [] \/ els = [] ->
+  wf_sp isz (impl_sptendiag v0 vadd isz els req) /\ sshape (impl_sptendiag v0 vadd isz els req) = diag_cshape (length els) req /\
+  forall i, inb (diag_cshape (length els) req) i = true -> den_sp v0 (impl_sptendiag v0 vadd isz els req) i = gdiag v0 els i.
+Proof. exact impl_sptendiag_correct. Qed.
+
+(* ---- `S[subs] = vals` as sptensor._set_subscripts computes it, BY POSITION (Model/C06SetSubs.v set_subs_AB: the positions of the targets
+        inside the coordinate list are looked up once; stored targets with a nonzero value are overwritten in place, stored targets
+        assigned zero are deleted by position, absent nonzero targets are appended), for pairwise distinct in-bounds targets and any
+        values: the result is well-formed — no duplicate, no explicit zero —, keeps the shape, denotes the receiver's array with the
+        target cells replaced, and is the same result for every stored order of the receiver.  With the groups in the other order
+        (delete first, then write at the stale positions: set_subs_BA) the last statement is FALSE ---- *)
+Theorem C06_set_subscripts : forall (V : Type) (v0 : V) (isz : V -> bool), (forall v, isz v = true <-> v = v0) ->
+  forall (S : sparse V) (t : list (idx * V)), wf_sp isz S -> NoDup (map fst t) -> (forall e, In e t -> inb (sshape S) (fst e) = true) ->
+  (wf_sp isz (set_subs_AB v0 isz S t) /\ sshape (set_subs_AB v0 isz S t) = sshape S) /\
+  forall i, den_sp v0 (set_subs_AB v0 isz S t) i = assign_den (den_sp v0 S) t i.
+Proof. exact set_subs_AB_correct. Qed.
+
+Theorem C06_set_subscripts_indep : forall (V : Type) (v0 : V) (isz : V -> bool), (forall v, isz v = true <-> v = v0) ->
+  forall (S S' : sparse V) (t : list (idx * V)), wf_sp isz S -> wf_sp isz S' -> sshape S' = sshape S ->
+  Permutation (entries S) (entries S') -> NoDup (map fst t) -> (forall e, In e t -> inb (sshape S) (fst e) = true) ->
+  same_result v0 isz (set_subs_AB v0 isz S t) (set_subs_AB v0 isz S' t).
+Proof. exact set_subs_AB_indep. Qed.
+
+(* with the de-duplication step in front (np.unique on the reversed targets: the LAST assignment to a subscript is kept): ANY in-bounds targets *)
+Theorem C06_set_subscripts_total : forall (V : Type) (v0 : V) (isz : V -> bool), (forall v, isz v = true <-> v = v0) ->
+  forall (S : sparse V) (t : list (idx * V)), wf_sp isz S -> (forall e, In e t -> inb (sshape S) (fst e) = true) ->
+  (wf_sp isz (set_subscripts v0 isz S t) /\ sshape (set_subscripts v0 isz S t) = sshape S) /\
+  forall i, den_sp v0 (set_subscripts v0 isz S t) i = assign_den (den_sp v0 S) t i.
+Proof. exact set_subscripts_correct. Qed.
+
+Theorem C06_set_subscripts_total_indep : forall (V : Type) (v0 : V) (isz : V -> bool), (forall v, isz v = true <-> v = v0) ->
+  forall (S S' : sparse V) (t : list (idx * V)), wf_sp isz S -> wf_sp isz S' -> sshape S' = sshape S ->
+  Permutation (entries S) (entries S') -> (forall e, In e t -> inb (sshape S) (fst e) = true) ->
+  same_result v0 isz (set_subscripts v0 isz S t) (set_subscripts v0 isz S' t).
+Proof. exact set_subscripts_indep. Qed.
+
+Theorem C06_set_subscripts_delete_first_refuted :
+  ~ (forall (S S' : sparse Z) (t : list (idx * Z)), wf_sp zisz S -> wf_sp zisz S' -> sshape S' = sshape S ->
+       Permutation (entries S) (entries S') -> NoDup (map fst t) -> (forall e, In e t -> inb (sshape S) (fst e) = true) ->
+       same_result 0%Z zisz (set_subs_BA 0%Z zisz S t) (set_subs_BA 0%Z zisz S' t)).
+Proof. exact set_subs_BA_order_dependent. Qed.
+
 Section C06W5ring.
 Variable V : Type.
 Variables (v0 v1 : V) (vadd vmul vsub : V -> V -> V) (vopp : V -> V).
@@ -67,6 +114,15 @@ Proof. exact (mmul_sp_all V v0 v1 vadd vmul vsub vopp Vring isz isz_spec). Qed.
 Theorem C06_innerprod_kruskal_value : forall (S : sparse V) (K : ktensor V), wf S -> sshape S = kshape K ->
   impl_innerprod_sp_k v0 v1 vadd vmul S K = spec_innerprod v0 vadd vmul (den S) (den_k v0 v1 vadd vmul K) (sshape S).
 Proof. exact (innerprod_sp_k_correct V v0 v1 vadd vmul vsub vopp Vring isz). Qed.
+
+(* ---- sptenmat.from_array of a DENSE matrix (C01's transliteration from_array_dense, the model the generator cases are tied to; C01's
+        theorem re-exported like C06_stm_from_coo): the sptenmat denotes the matrix and is a well-formed, strictly sorted triple list
+        whose to_sptensor() is well-formed (stm_converse_concl) ---- *)
+Theorem C06_stm_from_dense : forall (A : dense V) R C rd cd ts M, wf_dense A -> dshape A = [R; C] ->
+  from_array_dense v0 vadd isz A rd cd ts = Some M -> rd <> None \/ cd <> None ->
+  (forall rc, den (stm_sp M) rc = den_dense v0 A rc) /\
+  exists subs vals, stm_converse_concl V v0 vadd isz subs vals ts M.
+Proof. exact (from_array_dense_correct V v0 v1 vadd vmul vsub vopp isz Vring isz_spec). Qed.
 End C06W5ring.
 
 (* the boolean checkers evaluated on pyttb's huge observations are sound: a passing innerprod observation is the defining sum, a passing
@@ -87,9 +143,16 @@ Print Assumptions C06_reducers_perm_inv.
 Print Assumptions C06_from_aggregator_reducers_indep.
 Print Assumptions C06_cont_collapse_reducer_indep.
 Print Assumptions C06_cont_collapse_reducer_wf.
+Print Assumptions C06_sptendiag.
+Print Assumptions C06_set_subscripts.
+Print Assumptions C06_set_subscripts_indep.
+Print Assumptions C06_set_subscripts_total.
+Print Assumptions C06_set_subscripts_total_indep.
+Print Assumptions C06_set_subscripts_delete_first_refuted.
 Print Assumptions C06_walk_innerprod.
 Print Assumptions C06_walk_mul.
 Print Assumptions C06_innerprod_kruskal_value.
+Print Assumptions C06_stm_from_dense.
 Print Assumptions C06_huge_inner_sound.
 Print Assumptions C06_huge_mul_sound.
 
@@ -116,6 +179,25 @@ Example C06_collapse_reducer_example :
   cont_collapse_f 0 zisz red_max S [0; 1; 2]%nat = KNum 5 /\
   cont_collapse_f 0 zisz red_max S [0; 2]%nat = KDen (mkDense [3]%nat [-2; 0; 5]) /\
   cont_collapse_f 0 zisz red_min S [1]%nat = KSp (mkSp [2; 2]%nat [[0; 0]; [1; 1]]%nat [-3; -2]).
+Proof. vm_compute. repeat split; reflexivity. Qed.
+
+(* one call that overwrites [1], deletes [0] (and creates [3] / assigns zero to the absent [4]) on two stored orders of one 5-vector: the
+   positional model agrees up to stored order; deleting first writes -5 onto the wrong entry for the first order only *)
+Example C06_set_subscripts_example :
+  let S1 := mkSp [5]%nat [[0]; [1]; [2]]%nat [1; 5; -2] in
+  let S2 := mkSp [5]%nat [[2]; [0]; [1]]%nat [-2; 1; 5] in
+  let t := [([1]%nat, -5); ([0]%nat, 0); ([3]%nat, 7); ([4]%nat, 0)] in
+  set_subs_AB 0 zisz S1 t = mkSp [5]%nat [[1]; [2]; [3]]%nat [-5; -2; 7] /\
+  set_subs_AB 0 zisz S2 t = mkSp [5]%nat [[2]; [1]; [3]]%nat [-2; -5; 7] /\
+  set_subs_BA 0 zisz S1 t = mkSp [5]%nat [[1]; [2]; [3]]%nat [5; -5; 7] /\
+  set_subs_BA 0 zisz S2 t = mkSp [5]%nat [[2]; [1]; [3]]%nat [-2; 5; 7] /\
+  set_subscripts 0 zisz S2 (([1]%nat, 9) :: t ++ [([3]%nat, 0)]) = mkSp [5]%nat [[2]; [1]]%nat [-2; -5].
+Proof. vm_compute. repeat split; reflexivity. Qed.
+
+(* sptendiag([4; 0; 7]) without a shape and with the requested shape (2, 5): the zero element is not stored *)
+Example C06_sptendiag_example :
+  impl_sptendiag 0 Z.add zisz [4; 0; 7] None = mkSp [3; 3; 3]%nat [[0; 0; 0]; [2; 2; 2]]%nat [4; 7] /\
+  impl_sptendiag 0 Z.add zisz [4; 0; 7] (Some [2; 5]%nat) = mkSp [3; 5]%nat [[0; 0]; [2; 2]]%nat [4; 7].
 Proof. vm_compute. repeat split; reflexivity. Qed.
 
 (* the walk on two ascending 2x3 operands: common subscripts (0,1) and (1,2); a zero product cannot arise in Z, a cancelling one is dropped
